@@ -8,6 +8,7 @@ import (
 	"strconv"
 	"strings"
 
+	"github.com/iancoleman/strcase"
 	"github.com/pentops/j5/internal/verifh/vh"
 )
 
@@ -832,34 +833,14 @@ func FileText(root *Root, specs []*Spec) string {
 
 // ---------------------------------------------------------------- enum naming (independent of the compiler)
 
-// screamingSnake for the generator's enum type names (E + CamelCase letters only): insert `_`
-// before every capital that follows a lower-case letter or precedes one inside an acronym run.
-func screamingSnake(s string) string {
-	var sb strings.Builder
-	rs := []rune(s)
-	for i, r := range rs {
-		up := r >= 'A' && r <= 'Z'
-		if i > 0 && up {
-			prevLow := rs[i-1] >= 'a' && rs[i-1] <= 'z'
-			nextLow := i+1 < len(rs) && rs[i+1] >= 'a' && rs[i+1] <= 'z'
-			prevUp := rs[i-1] >= 'A' && rs[i-1] <= 'Z'
-			if prevLow || (prevUp && nextLow) {
-				sb.WriteByte('_')
-			}
-		}
-		if r >= 'a' && r <= 'z' {
-			r = r - 'a' + 'A'
-		}
-		sb.WriteRune(r)
-	}
-	return sb.String()
-}
-
+// the default prefix is defined by the language as strcase.ToScreamingSnake(name) + "_" (a
+// third-party library, not code under verification; the Lean driver uses the compile cluster's
+// byte-level model of it)
 func (s *Spec) enumPrefix() string {
 	if s.EPre != nil && *s.EPre != "" {
 		return *s.EPre
 	}
-	return screamingSnake(s.enumTypeName()) + "_"
+	return strcase.ToScreamingSnake(s.enumTypeName()) + "_"
 }
 
 // enumShort strips the prefix from a declared option / rule name.
